@@ -44,6 +44,42 @@ def classify(m):
     return 'result-value:%s' % et
 
 
+def offending_function(src, modname, errors):
+    """name of the generated function containing the first source line an error/crash message points at"""
+    lines = []
+    for l in errors.splitlines():
+        if l.lstrip().startswith('warning'):
+            continue
+        for m in re.finditer(r'%s\.py:(\d+):\d+' % re.escape(modname), l):
+            lines.append(int(m.group(1)))
+    if not lines:
+        return None
+    target = lines[0]
+    cur = None
+    for no, l in enumerate(src.splitlines(), 1):
+        m = re.match(r'def (fz\d+z)\(', l)
+        if m:
+            cur = m.group(1)
+        elif l and not l[0].isspace() and not l.startswith('def fz'):
+            cur = None if not l.startswith('#') else cur
+        if no == target:
+            return cur
+    return None
+
+
+def remove_function(src, fn):
+    out, skip = [], False
+    for l in src.splitlines():
+        if l.startswith('def %s(' % fn):
+            skip = True
+            continue
+        if skip and l and not l[0].isspace():
+            skip = False
+        if not skip:
+            out.append(l)
+    return '\n'.join(out) + '\n'
+
+
 def main(ck):
     tree = cy.Tree('C01')
     rng = ck.rng('programs')
@@ -63,6 +99,27 @@ def main(ck):
         mods[name] = src
         meta[name] = funcs
     d, info = tree.build_sources(mods, subdir='b', ext='.py')
+    # A function the compiler rejects or crashes on (C43's subject) must not hide the other ~39 functions of its
+    # module: drop the offending function (located through the reported source line) and rebuild, a few times.
+    dropped = []
+    for attempt in range(6):
+        redo = {}
+        for name, inf in info.items():
+            if inf['ok'] or inf['stage'] != 'translate':
+                continue
+            fn = offending_function(mods[name], name, inf['errors'])
+            if fn is None:
+                continue
+            msg = [l for l in inf['errors'].splitlines() if l.strip() and 'warning' not in l][-1:]
+            dropped.append({'module': name, 'function': fn, 'reason': (msg[0] if msg else '')[-160:]})
+            mods[name] = remove_function(mods[name], fn)
+            meta[name] = [f for f in meta[name] if f['name'] != fn]
+            redo[name] = mods[name]
+        if not redo:
+            break
+        d2, info2 = tree.build_sources(redo, subdir='b', ext='.py')
+        info.update(info2)
+    ck.cov['functions_dropped_because_compiler_rejected_or_crashed'] = dropped
     total = distinct = 0
     samples, hist = [], {}
     failed = 0
